@@ -443,11 +443,225 @@ func ruleR01_4(c *Check) {
 	}
 }
 
+// R01.5: what a reader looks at is pinned while it looks.
+func ruleR01_5(c *Check) {
+	w := c.W
+	r := c.Rule("R01.5", "E2+E1", 14, "readers pin what they read: a table taken from levelHandler.tables is referenced (Table.IncrRef, Table.NewIterator, NewConcatIterator, appendIteratorsReversed) while the level's lock is held; Table.NewIterator and NewConcatIterator take a reference on every table they are given and the iterators' Close gives it back; getTableForKey hands back a release function for exactly the tables it pinned and levelHandler.get runs it on every exit; DB.getMemTables references db.mt and every immutable memtable under DB.lock, returns the matching release, and every caller runs it on all exits",
+		"a compaction or flush that finishes while a read is in progress drops the last reference of a table or memtable: its file is unlinked and its mapping (or arena) released under the reader, which then reads freed memory or misses the data")
+	tblInc, tblDec := w.Func("table.Table.IncrRef"), w.Func("table.Table.DecrRef")
+	newIt := w.Func("table.Table.NewIterator")
+	newConcat := w.Func("table.NewConcatIterator")
+	air := w.Func("badger.appendIteratorsReversed")
+	lhMu := embeddedMutex(w, "badger.levelHandler")
+	tablesF := w.Field("badger.levelHandler.tables")
+	var k keyer
+	// (1) references on level tables are taken under the level lock
+	n := 0
+	for _, f := range w.Fns {
+		if shortPkg(f.Pkg) != "badger" || isCmdPkg(f) || f.Body == nil {
+			continue
+		}
+		root := f.Root()
+		if root.Obj == nil {
+			continue
+		}
+		sig, _ := root.Obj.Type().(*types.Signature)
+		if sig == nil || sig.Recv() == nil || !namedIs(sig.Recv().Type(), modPath, "levelHandler") {
+			continue
+		}
+		// functions of levelHandler that read s.tables and let tables out
+		if len(f.Sites(selUse(tablesF))) == 0 {
+			continue
+		}
+		f := f
+		f.walk(func(x ast.Node) bool {
+			call, ok := x.(*ast.CallExpr)
+			if !ok {
+				return true
+			}
+			switch w.Callee(call) {
+			case types.Object(tblInc), types.Object(newIt), types.Object(newConcat), types.Object(air):
+			default:
+				return true
+			}
+			switch root.Name {
+			case "badger.levelHandler.replaceTables", "badger.levelHandler.addTable", "badger.levelHandler.tryAddLevel0Table", "badger.levelHandler.initTables":
+				// writers: they hold the write lock or run before the level is shared (R12.6 covers the list itself)
+			}
+			n++
+			var trail []string
+			okv := lhMu != nil && f.HeldDeep(call, lhMu, 1, 1, &trail)
+			if root.Name == "badger.levelHandler.initTables" {
+				okv = true // Open: the level is not shared yet
+			}
+			r.Check(okv, f, k.key("table referenced while the level lock is held", w, call), call, "a table of levelHandler.tables is referenced without the level's lock: a concurrent compaction can drop its last reference first ("+joinTrail(trail)+")")
+			return true
+		})
+	}
+	r.Exists(n >= 5, nil, "reference sites in levelHandler", nil, "expected the pin sites of getTableForKey, appendIterators and the table-list writers")
+	// (2) the iterator constructors take, and Close returns, the reference
+	ni := w.F("table.Table.NewIterator")
+	r.ExitsNeed(ni, "NewIterator references its table", selCall(tblInc), 0, exitAll)
+	ic := w.F("table.Iterator.Close")
+	r.ExitsNeed(ic, "Iterator.Close releases its table", selCall(tblDec), 0, exitAll)
+	nc := w.F("table.NewConcatIterator")
+	okLoop := false
+	nc.walk(func(x ast.Node) bool {
+		call, ok := x.(*ast.CallExpr)
+		if !ok || w.Callee(call) != types.Object(tblInc) {
+			return true
+		}
+		for p := w.parentOf(call); p != nil; p = w.parentOf(p) {
+			switch l := p.(type) {
+			case *ast.RangeStmt:
+				if id, ok := unparen(l.X).(*ast.Ident); ok {
+					if v, ok := w.Use(id).(*types.Var); ok && isParam(nc, v) {
+						okLoop = len(w.Guards(nc, call)) == 0 || onlyLoopGuards(w, nc, call)
+					}
+				}
+			case *ast.ForStmt:
+				okLoop = onlyLoopGuards(w, nc, call)
+			}
+		}
+		return true
+	})
+	r.Check(okLoop, nc, "NewConcatIterator references every table it is given", nil, "NewConcatIterator does not IncrRef each table unconditionally")
+	cc := w.F("table.ConcatIterator.Close")
+	r.Check(len(cc.Sites(selCall(tblDec))) >= 1, cc, "ConcatIterator.Close releases its tables", nil, "ConcatIterator.Close no longer calls DecrRef")
+	// (3) getTableForKey / get
+	gt := w.F("badger.levelHandler.getTableForKey")
+	for _, e := range gt.allExits() {
+		rs, ok := e.Node.(*ast.ReturnStmt)
+		if !ok || len(rs.Results) != 2 {
+			continue
+		}
+		if id, isId := unparen(rs.Results[0]).(*ast.Ident); isId && id.Name == "nil" {
+			continue
+		}
+		rel := unparen(rs.Results[1])
+		okRel := false
+		switch x := rel.(type) {
+		case *ast.FuncLit:
+			if lit := w.ByLit[x]; lit != nil && len(lit.Sites(selCall(tblDec))) >= 1 {
+				okRel = true
+			}
+		case *ast.SelectorExpr:
+			okRel = w.Use(x.Sel) == types.Object(tblDec)
+		}
+		r.Check(okRel, gt, k.key("pinned tables come with their release", w, rs), rs, "getTableForKey returns tables without a function that releases them")
+	}
+	// every table put into a result (append(out, t) or []*table.Table{t}) is referenced in the same block
+	enclosingBlock := func(n ast.Node) ast.Node {
+		for p := w.parentOf(n); p != nil; p = w.parentOf(p) {
+			if _, ok := p.(*ast.BlockStmt); ok {
+				return p
+			}
+		}
+		return nil
+	}
+	pinnedHere := func(f *Fn, at ast.Node, elem ast.Expr, inc types.Object) bool {
+		want := types.ExprString(unparen(w.Origin(f, elem)))
+		want2 := types.ExprString(unparen(elem))
+		for _, s := range f.Sites(selCall(inc)) {
+			rc := recvOf(s.(*ast.CallExpr))
+			if rc == nil || enclosingBlock(s) != enclosingBlock(at) {
+				continue
+			}
+			if got := types.ExprString(unparen(rc)); got == want || got == want2 || types.ExprString(unparen(w.Origin(f, rc))) == want {
+				return true
+			}
+		}
+		return false
+	}
+	handed := 0
+	gt.walk(func(x ast.Node) bool {
+		switch e := x.(type) {
+		case *ast.CallExpr:
+			if isBuiltin(w, e, "append") && len(e.Args) == 2 && !e.Ellipsis.IsValid() {
+				handed++
+				r.Check(pinnedHere(gt, e, e.Args[1], tblInc), gt, k.key("every table handed out is referenced", w, e), e, "table "+short(w, e.Args[1])+" is handed out without IncrRef in the same block")
+			}
+		case *ast.CompositeLit:
+			if tv, ok := w.Info.Types[e]; ok {
+				if sl, isSl := tv.Type.Underlying().(*types.Slice); isSl && namedIs(sl.Elem(), modPath+"/table", "Table") {
+					for _, el := range e.Elts {
+						handed++
+						r.Check(pinnedHere(gt, e, el, tblInc), gt, k.key("every table handed out is referenced", w, e), e, "table "+short(w, el)+" is handed out without IncrRef in the same block")
+					}
+				}
+			}
+		}
+		return true
+	})
+	r.Exists(handed >= 2, gt, "tables handed out", nil, "expected the L0 list and the single-table result of getTableForKey")
+	lg := w.F("badger.levelHandler.get")
+	var decr *types.Var
+	lg.walk(func(x ast.Node) bool {
+		if as, ok := x.(*ast.AssignStmt); ok && len(as.Lhs) == 2 && len(as.Rhs) == 1 && w.isCallTo(as.Rhs[0], w.Func("badger.levelHandler.getTableForKey")) {
+			if id, ok := as.Lhs[1].(*ast.Ident); ok {
+				decr, _ = w.Use(id).(*types.Var)
+			}
+		}
+		return true
+	})
+	callsVar := func(v *types.Var) Sel {
+		return selPred("call of the release function", func(w *World, fn *Fn, n ast.Node) bool {
+			call, ok := n.(*ast.CallExpr)
+			if !ok {
+				return false
+			}
+			id, ok := unparen(call.Fun).(*ast.Ident)
+			return ok && v != nil && w.Use(id) == types.Object(v)
+		})
+	}
+	r.Check(decr != nil, lg, "levelHandler.get keeps the release function", nil, "the release function returned by getTableForKey is discarded")
+	if decr != nil {
+		r.ExitsNeed(lg, "tables released", callsVar(decr), 0, exitAll)
+	}
+	// (4) memtables
+	gm := w.F("badger.DB.getMemTables")
+	dbl := types.Object(w.Field("badger.DB.lock"))
+	mInc := w.Func("badger.memTable.IncrRef")
+	m := 0
+	for _, s := range gm.Sites(selCall(mInc)) {
+		m++
+		r.Check(gm.HeldAt(s)[dbl] >= 1, gm, k.key("memtable referenced under DB.lock", w, s), s, "memtable referenced without DB.lock: the flusher can release it first")
+	}
+	r.Exists(m >= 2, gm, "memtable references", nil, "expected IncrRef of db.mt and of the immutable memtables")
+	for _, s := range gm.Sites(selPred("append to the result", func(w *World, fn *Fn, n ast.Node) bool {
+		call, ok := n.(*ast.CallExpr)
+		return ok && isBuiltin(w, call, "append") && len(call.Args) == 2
+	})) {
+		call := s.(*ast.CallExpr)
+		// the appended memtable is referenced in the same block (same guards)
+		r.Check(pinnedHere(gm, call, call.Args[1], mInc), gm, k.key("every memtable handed out is referenced", w, s), s, "memtable "+short(w, call.Args[1])+" is handed out without IncrRef in the same block")
+	}
+	for _, cs := range w.CG().CallSitesOf(gm) {
+		caller := cs.Caller
+		call, ok := cs.Node.(*ast.CallExpr)
+		if !ok || caller == nil {
+			continue
+		}
+		as, ok := w.parentOf(call).(*ast.AssignStmt)
+		var rel *types.Var
+		if ok && len(as.Lhs) == 2 {
+			if id, ok := as.Lhs[1].(*ast.Ident); ok {
+				rel, _ = w.Use(id).(*types.Var)
+			}
+		}
+		r.Check(rel != nil, caller, k.key("caller keeps the memtable release function", w, call), call, "the release function of getMemTables is discarded")
+		if rel != nil {
+			r.FollowAll(caller, "memtables released after getMemTables", selNode(call), 0, callsVar(rel), 0, exitAll)
+		}
+	}
+}
+
 func propC01(c *Check) {
 	ruleR01_1(c)
 	ruleR01_2(c)
 	ruleR01_3(c)
 	ruleR01_4(c)
+	ruleR01_5(c)
 	// iterators: within L0 the newer table precedes the older one in the merge (ties on identical
 	// key+version — a value-log GC write-back — must resolve to the newer copy)
 	ruleR12_3(c)
